@@ -34,6 +34,10 @@ EXTENDS ScpiTree, Integers
 NoFail == [lo |-> 0, hi |-> 0, ext |-> 0]
 Exactly(c, x) == [lo |-> c, hi |-> c, ext |-> x]
 CommandErr == [lo |-> -199, hi |-> -100, ext |-> -1]
+AnyErr     == [lo |-> -32768, hi |-> -1, ext |-> -1]
+(* a response item that has no valid response form (e.g. a string with a non-ASCII byte): formatting it fails *)
+BadItem == <<128>>
+HasBadItem(h) == \E k \in 1..Len(h.items) : h.items[k] = BadItem
 
 InitExec(cap) == [cap |-> cap, cur |-> Root, n |-> 0, calls |-> <<>>, out |-> <<>>, err |-> NoFail, opt |-> FALSE]
 
@@ -93,6 +97,8 @@ ExecUnit(es, u) ==
                THEN Abort(es1, Exactly(-225, 0), TRUE)                 \* C11: the unit separator does not fit
           ELSE IF pl.missing THEN Abort(es1, Exactly(-109, 0), FALSE)  \* C06: missing parameter
           ELSE IF h.res.code # 0 THEN Abort(es1, Exactly(h.res.code, h.res.ext), FALSE)  \* C05: handler-raised error
+          ELSE IF u.query /\ HasBadItem(h) THEN Abort(es1, AnyErr, FALSE)                 \* C05/C10: a datum that cannot be formatted fails the unit,
+                                                                                          \* whatever is written after it
           ELSE IF u.query /\ ~Fits(es, seg) THEN Abort(es1, Exactly(-225, 0), FALSE)  \* C11: response does not fit
           ELSE IF pl.got < nd THEN Abort(es1, Exactly(-108, 0), FALSE) \* C06: surplus parameter
           ELSE [es1 EXCEPT !.out = es.out \o seg, !.n = es.n + 1, !.opt = FALSE]
